@@ -62,7 +62,8 @@ def prophyc_cpp(text, workdir, name='sch', full=True, raw=False, python=False, f
 
 
 def compile_cpp(sources, out, include_dirs, sanitize=True, cxx=CXX, extra=(), timeout=900, compile_only=False):
-    cmd = [cxx] + BASE_FLAGS + (SAN_FLAGS if sanitize else []) + list(extra)
+    base = BASE_FLAGS if cxx.startswith('clang') else [f for f in BASE_FLAGS if not f.startswith('-gline')]
+    cmd = [cxx] + base + (SAN_FLAGS if sanitize else []) + list(extra)
     for d in include_dirs:
         cmd += ['-I', d]
     cmd += ['-I', os.path.join(REPO, 'prophy_cpp', 'include')]
@@ -362,8 +363,12 @@ def run_cases(binary, cases, timeout=300):
                 a = rest.split()
                 cur['ptr_written'] = int(a[0])
                 cur['ptr_bytes'] = bytes.fromhex(a[1]) if len(a) > 1 else b''
-            elif tag in ('L', 'B', 'N', 'T'):
+            elif tag in ('L', 'B', 'N', 'T', 'O'):
                 cur[tag] = bytes.fromhex(rest.strip())
+            elif tag == 'R':
+                cur['ret'] = int(rest)
+            elif tag == 'G':
+                cur['guard_changed'] = int(rest)
         if cur is not None:
             # process died (or hung) inside this case
             if timed_out:
@@ -384,3 +389,144 @@ def run_cases(binary, cases, timeout=300):
             break
         todo = []
     return results, reports
+
+
+# ---------------------------------------------------------------------------
+# raw codec drivers (C08, C09)
+# ---------------------------------------------------------------------------
+
+def raw_expected_layout(schema, wire, names):
+    """Reference table: {('S', type): (size or None, align), ('M', container, member): offset}."""
+    exp = {}
+    for n in names:
+        d = schema.by_name[n]
+        size, align, stiff = wire.tinfo(n)
+        exp[('S', n)] = (size, align)
+        if d.kind == 'union':
+            a = align
+            exp[('M', n, 'discriminator')] = 0
+            for disc, t, an, _ in d.arms:
+                exp[('M', n, an)] = a
+            continue
+        L = wire.layout(n)
+        for bi, block in enumerate(L.blocks):
+            cont = n if bi == 0 else '%s::part%d' % (n, bi + 1)
+            for f, off in zip(block, L.offsets[bi]):
+                m = f.member
+                if f.role == 'counter':
+                    exp[('M', cont, 'num_of_' + m.name)] = off
+                elif f.role == 'sizer':
+                    exp[('M', cont, m.name)] = off
+                elif m.kind == OPTIONAL:
+                    a = max(4, wire.tinfo(m.type)[1])
+                    exp[('M', cont, 'has_' + m.name)] = off
+                    exp[('M', cont, m.name)] = off + a
+                else:
+                    exp[('M', cont, m.name)] = off
+    return exp
+
+
+def raw_layout_driver_source(schema, wire, names, name='sch'):
+    exp = raw_expected_layout(schema, wire, names)
+    lines = ['#include <cstdio>', '#include <cstddef>', '#include "%s.pp.hpp"' % name, 'int main()', '{']
+    for key in exp:
+        if key[0] == 'S':
+            lines.append('    printf("S %s %%zu %%zu\\n", sizeof(%s), (size_t)__alignof__(%s));' % (key[1], key[1], key[1]))
+        else:
+            lines.append('    printf("M %s %s %%zu\\n", (size_t)__builtin_offsetof(%s, %s));' % (key[1], key[2], key[1], key[2]))
+    lines += ['    return 0;', '}']
+    return '\n'.join(lines) + '\n', exp
+
+
+def parse_layout_output(text):
+    got = {}
+    for ln in text.split('\n'):
+        a = ln.split()
+        if not a:
+            continue
+        if a[0] == 'S':
+            got[('S', a[1])] = (int(a[2]), int(a[3]))
+        elif a[0] == 'M':
+            got[('M', a[1], a[2])] = int(a[3])
+    return got
+
+
+SWAP_HEAD = r'''
+#include <cstdio>
+#include <cstdlib>
+#include <cstring>
+#include <string>
+#include <vector>
+#include <stdint.h>
+#include "%(name)s.pp.hpp"
+
+static void put_hex(const char* tag, const uint8_t* p, size_t n)
+{
+    static const char* d = "0123456789abcdef";
+    std::string s;
+    for (size_t i = 0; i < n; ++i) { s.push_back(d[p[i] >> 4]); s.push_back(d[p[i] & 15]); }
+    printf("%%s %%s\n", tag, s.c_str());
+}
+static int hexval(char c) { return c <= '9' ? c - '0' : (c | 32) - 'a' + 10; }
+
+template <class T>
+void run(const std::vector<uint8_t>& in, int op)
+{
+    const size_t n = in.size();
+    if (op == 0)
+    {
+        // exact-size heap block: any access outside the message is an AddressSanitizer report
+        uint8_t* buf = new uint8_t[n];
+        if (n) memcpy(buf, in.data(), n);
+        T* end = prophy::swap(reinterpret_cast<T*>(buf));
+        printf("R %%ld\n", long(reinterpret_cast<uint8_t*>(end) - buf));
+        put_hex("O", buf, n);
+        delete[] buf;
+    }
+    else
+    {
+        // arena with sentinels around the message: any changed byte outside it is reported
+        const size_t guard = 64;
+        uint8_t* arena = new uint8_t[n + 2 * guard];
+        memset(arena, 0xA5, n + 2 * guard);
+        uint8_t* buf = arena + guard;
+        if (n) memcpy(buf, in.data(), n);
+        T* end = prophy::swap(reinterpret_cast<T*>(buf));
+        printf("R %%ld\n", long(reinterpret_cast<uint8_t*>(end) - buf));
+        put_hex("O", buf, n);
+        size_t changed = 0;
+        for (size_t i = 0; i < guard; ++i) { changed += arena[i] != 0xA5; changed += buf[n + i] != 0xA5; }
+        printf("G %%zu\n", changed);
+        delete[] arena;
+    }
+}
+'''
+
+SWAP_TAIL = r'''
+int main()
+{
+    static char line[1 << 20];
+    while (fgets(line, sizeof line, stdin))
+    {
+        char id[64]; int ti, e, op; size_t f; int off = 0;
+        if (sscanf(line, "%63s %d %d %d %zu %n", id, &ti, &e, &op, &f, &off) < 5) continue;
+        std::vector<uint8_t> in;
+        for (const char* p = line + off; p[0] && p[1] && p[0] != '\n' && p[0] != '-'; p += 2)
+            in.push_back(uint8_t(hexval(p[0]) * 16 + hexval(p[1])));
+        printf("BEGIN %s\n", id);
+        fflush(stdout);
+        dispatch(ti, in, op);
+        printf("END %s\n", id);
+        fflush(stdout);
+    }
+    return 0;
+}
+'''
+
+
+def raw_swap_driver_source(names, name='sch'):
+    disp = ['static void dispatch(int ti, const std::vector<uint8_t>& in, int op)', '{', '    switch (ti)', '    {']
+    for i, n in enumerate(names):
+        disp.append('        case %d: run<%s>(in, op); break;' % (i, n))
+    disp += ['        default: printf("BADTYPE\\n");', '    }', '}']
+    return SWAP_HEAD % {'name': name} + '\n'.join(disp) + '\n' + SWAP_TAIL
